@@ -545,7 +545,9 @@ Verdict run_sched_case(const Case &c, SchedProp which)
         for (size_t p = rep.find(" by thread T"); p != std::string::npos; p = rep.find(" by thread T", p + 1))
           workers++;
         bool group_code = rep.find("buffergroup::") != std::string::npos || rep.find("bufferctrl::") != std::string::npos || rep.find("iobuffer::") != std::string::npos;
-        hit = is_race && heap && worker_party && (main_party || (workers >= 2 && group_code));
+        // the group's bookkeeping may also live in a static (not on the heap): with a frame in the group's code any
+        // race that involves a worker counts, wherever the memory is
+        hit = is_race && worker_party && ((heap && main_party) || (group_code && (main_party || workers >= 2)));
       }
       else if (which == SP_C03)
         hit = is_race && worker_party && (heap || in_transform || !symbolized); // chunk data or the cipher transformation itself depends on the schedule
